@@ -42,7 +42,7 @@ pub struct UniCase {
 
 fn uni_strategy(tier: Tier) -> BoxedStrategy<UniCase> {
     let g = TaskGen {
-        arr: ArrGen { tmax: tier.pick(50, 100), never: false, plateau_end: true, plain_curves: true, derived: false, acp: false, loose: false, depth: 1 },
+        arr: ArrGen { tmax: tier.pick(50, 100), never: true, plateau_end: true, plain_curves: true, derived: false, acp: false, loose: false, poisson: false, depth: 1 },
         cmax: 9,
         nmax: 4,
         dfac: 3,
@@ -164,6 +164,11 @@ fn check_uni(c: &UniCase) -> CheckResult {
                     .collect();
                 let mut worst: Option<Res> = None;
                 for i in 0..t1.len() {
+                    // a task that never releases a job has no response time to bound (its analysis
+                    // result is vacuous), so it does not take part in the maximum
+                    if t1[i].arr.never_arrives() {
+                        continue;
+                    }
                     let r = run(&t1, Analysis::EdfNp, i, c.limit, None, c.wrap)?;
                     worst = Some(match (worst, r) {
                         (None, r) => r,
@@ -177,7 +182,7 @@ fn check_uni(c: &UniCase) -> CheckResult {
                     });
                 }
                 let f = run(&t1, Analysis::Fifo, 0, c.limit, None, c.wrap)?;
-                let w = worst.unwrap();
+                let w = worst.unwrap_or(Res::Ok(0));
                 // Err iff Err (the error payloads name the same limit and offset 0 in both)
                 ("max_i NP-EDF_i (equal deadlines)".into(), w, "FIFO".into(), f)
             }
